@@ -42,7 +42,10 @@ Proof.
   all: vm_compute; repeat split; reflexivity.
 Qed.
 
-(* Outside the known class serialisation accepts exactly the documented pairs and the conceded ones *)
+(* Outside the known class serialisation accepts exactly the documented pairs and the conceded ones.
+   The half "accepted => in the specification" holds by the DEFINITION of known_class (accepted and
+   not in the specification); the half with content is "in the specification => accepted".  What
+   makes the class narrow are C17_code_matrix (no other rule difference) and C17_known_class_shape. *)
 Theorem C17_matrix_ser : forall k t, known_class k t = false -> ser_accepts k t = spec_compat Ser k t.
 Proof. exact matrix_ser. Qed.
 Theorem C17_matrix_ser_doc : forall k t, known_class k t = false ->
@@ -91,7 +94,8 @@ Proof. exact row_accepts_spec. Qed.
 Theorem C17_row_check_ok : forall ks cols, row_check ks cols = RK_Ok <-> row_accepts ks cols = true.
 Proof. exact row_check_ok. Qed.
 
-(* a typed row iterator - the only way rows reach K::deserialize - exists only over columns whose
+(* [typed_rows] is a 4-line model of TypedRowIterator::new (tied by kind T, these two statements
+   unfold it): the constructor hands out an iterator only over columns whose
    types the documentation lists for the Rust types of the row; otherwise the constructor returns
    the type-check error and no row is ever decoded *)
 Theorem C17_read_guard : forall ks cols rows n, forallb deser_impl ks = true ->
@@ -110,13 +114,16 @@ Theorem C17_accept_sound : forall k ws t v e,
   snd (ser_out k ws t v) = Some e -> is_typeck e = false /\ e <> KE_IllTyped.
 Proof. intros k ws t v e Hs Hv Ha He. exact (accept_sound k ws t v Hs Hv Ha e He). Qed.
 
-(* a rejected pair is refused on every value that reaches all positions of the carrier: with a
-   type-check error, or by one of the three checks that can come before it *)
+(* a rejected pair is refused on every value that reaches all positions of the carrier.  The error
+   is named by [refusal_named lenmis big e]: a type-check error (or ValueOverflow of a leaf
+   conversion); VectorLen - only when some vector position of the value has the wrong length
+   ([val_len_mis]); TooManyElements - only when some collection has more than i32::MAX elements
+   ([kv_big]); SizeOverflow (a cell of more than i32::MAX bytes).  The last three are checked
+   before / between the element checks and can pre-empt a type-check error further right. *)
 Theorem C17_reject_complete : forall k ws t v,
   has_carrier k v = true -> populated v = true -> ser_accepts k t = false ->
-  exists se, snd (ser_out k ws t v) = Some (KE se) /\
-             (is_typeck (KE se) = true \/ se = SE_VectorLen \/ se = SE_TooManyElements \/ se = SE_SizeOverflow).
-Proof. exact reject_complete_class. Qed.
+  exists e, snd (ser_out k ws t v) = Some e /\ refusal_named (val_len_mis k t v) (kv_big v) e.
+Proof. exact reject_complete_named. Qed.
 
 (* Full-strength reading of "refused for every such pair", FALSE for the code: the type checks are
    lazy, a value that does not reach the mismatching position is accepted.  What is sent is a
@@ -139,15 +146,33 @@ Qed.
    CqlValue at any position included, populated or not *)
 Theorem C17_value_accept : forall k ws t v e, val_fits k t v = true ->
   snd (ser_out k ws t v) = Some e -> is_size_err e = true.
-Proof. intros k ws t v e H He. exact (val_accept k ws t v H e He). Qed.
+Proof. intros k ws t v e H He. exact (val_accept_gen true k ws t v H e He). Qed.
 
-(* a value that is not a value of the column type - the misfit at any depth, in any carrier - is
-   refused, outside the known class.  Full-strength statement (without val_known), FALSE: F2b. *)
-Theorem C17_value_reject : forall k ws t v,
-  has_carrier k v = true -> val_fits k t v = false -> val_known k t v = false ->
-  exists se, snd (ser_out k ws t v) = Some (KE se) /\
-             (is_typeck (KE se) = true \/ se = SE_VectorLen \/ se = SE_TooManyElements \/ se = SE_SizeOverflow).
-Proof. exact val_reject_class. Qed.
+(* a value that is not a value of the column type even WITHOUT the vector element rule ([val_lax])
+   - the misfit at any depth, in any carrier - is refused, and the error is named.  No class
+   premise: the vector element rule is the only rule the code lacks.  With the rule
+   ([val_fits] instead of [val_lax]) the statement is FALSE: C17_value_reject_refuted. *)
+Theorem C17_value_reject : forall k ws t v, has_carrier k v = true -> val_lax k t v = false ->
+  exists e, snd (ser_out k ws t v) = Some e /\ refusal_named (val_len_mis k t v) (kv_big v) e.
+Proof. exact val_reject_named. Qed.
+
+(* with the right lengths, no oversized collection and no 2 GiB cell it IS a type-check error (or
+   the failed conversion of a leaf) *)
+Theorem C17_value_reject_typeck : forall k ws t v e, has_carrier k v = true -> val_lax k t v = false ->
+  val_len_mis k t v = false -> kv_big v = false -> snd (ser_out k ws t v) = Some e -> e <> KE SE_SizeOverflow ->
+  is_typeck e = true \/ e = KE_ValueOverflow.
+Proof. exact val_reject_typeck. Qed.
+
+(* the known class at the value level is narrow by construction and by theorem: such a value fits
+   once the vector element rule is dropped - nothing else is wrong with it - and the code does not
+   refuse it with a type check *)
+Theorem C17_value_known : forall k ws t v e, val_known k t v = true ->
+  val_lax k t v = true /\ val_fits k t v = false /\
+  (snd (ser_out k ws t v) = Some e -> is_size_err e = true).
+Proof.
+  intros k ws t v e H. unfold val_known in H. apply andb_prop in H as [Hl Hs]. apply negb_true_iff in Hs.
+  repeat split; auto. intros He. exact (val_accept_gen false k ws t v Hl e He).
+Qed.
 
 (* F2b through a typed container of CqlValue: Vec<CqlValue> = [Int 7, Empty] at vector<int, 2>
    comes out as a 4-byte vector *)
@@ -161,12 +186,11 @@ Qed.
 
 (* ---- the dynamic carrier ------------------------------------------------------------------ *)
 
-(* a CqlValue that is not a value of the column type - wherever the misfit sits - is refused,
-   outside the known class.  Full-strength statement (without dyn_known), FALSE: F2b. *)
-Theorem C17_dynamic_reject : forall t ws v, dyn_fits t v = false -> dyn_known t v = false ->
-  exists se, snd (ser_out KCqlValue ws t (VLeaf v)) = Some (KE se) /\
-             (is_typeck (KE se) = true \/ se = SE_VectorLen \/ se = SE_TooManyElements \/ se = SE_SizeOverflow).
-Proof. intros t ws v H K. exact (dyn_reject_class t ws v H K). Qed.
+(* the same for a top-level CqlValue ([dyn_lax]: a value of the type once the rule "no Empty in a
+   vector of fixed-width elements" is dropped).  With the rule the statement is FALSE (F2b). *)
+Theorem C17_dynamic_reject : forall t ws v, dyn_lax t v = false ->
+  exists e, snd (ser_out KCqlValue ws t (VLeaf v)) = Some e /\ refusal_named (dyn_len_mis t v) (cval_big v) e.
+Proof. intros t ws v H. exact (dyn_reject_named t ws v H). Qed.
 
 (* the known class on the dynamic path: CqlValue::Vector([Int(7), Empty]) bound to vector<int, 2>
    is accepted and comes out as a 4-byte (short) vector *)
@@ -181,7 +205,7 @@ Qed.
    can still stop it *)
 Theorem C17_dynamic_accept : forall t ws v e, dyn_fits t v = true ->
   snd (ser_out KCqlValue ws t (VLeaf v)) = Some e -> is_size_err e = true.
-Proof. intros t ws v e H He. exact (dyn_accept t ws v H e He). Qed.
+Proof. intros t ws v e H He. exact (dyn_accept_gen true t ws v H e He). Qed.
 
 (* the buffer-level dynamic serialiser is the serialiser of Model/Cql.v (property C01): same
    bytes ([out_of ws c] = c behind its 4-byte length when the writer is sized), same error leaf.
@@ -337,6 +361,12 @@ Example C17_ex_known_class_narrow :
   val_known (KVec KCqlValue) (TVector tint 2) (VSeq [VLeaf (CInt 7); VLeaf (CText [97])]) = false /\
   val_known (KVec (KOption (KBase BI32))) (TVector tint 2) (VSeq [VWrap (VLeaf (CInt 7)); VWrap (VLeaf (CInt 8))]) = false /\
   dyn_known (TVector tint 2) (CVector [CInt 7; CText [97]]) = false /\
+  (* a hole AND another misfit: not of the class (the code refuses these) *)
+  dyn_known (TVector tint 2) (CVector [CEmpty; CText [97]]) = false /\
+  val_known (KVec (KOption (KBase BI32))) (TVector ttext 2) (VSeq [VWrap (VLeaf (CInt 7)); VNull]) = false /\
+  val_known (KTuple [KVec (KOption (KBase BI32)); KBase BI32]) (TTuple [TVector tint 2; ttext])
+            (VTup [VSeq [VWrap (VLeaf (CInt 7)); VNull]; VLeaf (CInt 1)]) = false /\
+  val_known (KVec (KOption (KBase BI32))) (TVector tint 2) (VSeq [VWrap (VLeaf (CInt 7)); VNull]) = true /\
   dyn_known (TVector ttext 2) (CVector [CText [97]; CEmpty]) = false.
 Proof. vm_compute. repeat split; reflexivity. Qed.
 
@@ -365,6 +395,21 @@ Example C17_ex_spec :
   closure_count [65535; 1] = Err RE_TooManyValues.
 Proof. vm_compute. repeat split; reflexivity. Qed.
 
+(* the two conversions that can fail: a leap second, an exponent beyond i32.  BigDecimal has already
+   taken a value builder, so the -3 placeholder is in the buffer when the error is raised (and is
+   truncated by add_value like any other junk); the values do not fit, in-range ones do *)
+Example C17_ex_value_overflow :
+  ser_out (KBase BBigDecimal) true (TNative NDecimal) (VLeaf (CDecimal (2 ^ 31) [1])) = ([255; 255; 255; 253], Some KE_ValueOverflow) /\
+  ser_out (KBase BBigDecimal) true (TNative NDecimal) (VLeaf (CDecimal (2 ^ 31 - 1) [1])) = ([0; 0; 0; 5; 127; 255; 255; 255; 1], None) /\
+  ser_out (KBase BChronoTime) true (TNative NTime) (VLeaf (CTime 86400000000000)) = ([], Some KE_ValueOverflow) /\
+  ser_out (KBase BCqlTime) true (TNative NTime) (VLeaf (CTime 86400000000000)) = ([0; 0; 0; 8; 0; 0; 78; 148; 145; 79; 0; 0], None) /\
+  val_fits (KBase BBigDecimal) (TNative NDecimal) (VLeaf (CDecimal (2 ^ 31) [1])) = false /\
+  val_fits (KBase BChronoTime) (TNative NTime) (VLeaf (CTime 86399999999999)) = true /\
+  fst (add_value sv_new (KVec (KBase BBigDecimal)) (TList (TNative NDecimal))
+         (VSeq [VLeaf (CDecimal 2 [1]); VLeaf (CDecimal (- 2 ^ 31 - 1) [1])])) = sv_new /\
+  is_typeck KE_ValueOverflow = false /\ is_size_err KE_ValueOverflow = false /\ is_refusal KE_ValueOverflow = true.
+Proof. vm_compute. repeat split; reflexivity. Qed.
+
 Print Assumptions C17_code_matrix.
 Print Assumptions C17_matrix_ser_doc_refuted.
 Print Assumptions C17_matrix_ser.
@@ -382,6 +427,8 @@ Print Assumptions C17_reject_complete.
 Print Assumptions C17_matrix_ser_lazy_refuted.
 Print Assumptions C17_value_accept.
 Print Assumptions C17_value_reject.
+Print Assumptions C17_value_reject_typeck.
+Print Assumptions C17_value_known.
 Print Assumptions C17_value_reject_refuted.
 Print Assumptions C17_dynamic_reject.
 Print Assumptions C17_dynamic_reject_refuted.
